@@ -79,6 +79,7 @@ Apply(e) ==
            \* sleeping shorter than necessary is harmless (an extra pass); sleeping longer serves a timer late
            ELSE IF st = "sleeping" /\ e.until <= ts.su /\ e.until > e.t THEN S([ts EXCEPT !.su = e.until], subs, "idle", pendF, pendC, regs, unsub)
                 ELSE Fail("sleep time differs from the specification (a timer would be served late)")
+      [] e.ev = "hang" -> Fail("a call into the stack does not return / the stacks produce events without end")
       [] e.ev = "jobdead" -> Fail("job thread died")
       [] e.ev = "spin" -> Fail("job thread busy-spins")
       [] e.ev \in {"abs", "end", "note", "tx"} -> Keep
